@@ -10,7 +10,8 @@ A *spec* (JSON-able) describes a definition:
     {"focus": <construct|"holder">, "operand": [kinds, constrs, option], "result": [...],
      "region": [...], "successor": [...], "holder": None|"prop"|"opt_prop"|"attr"|"opt_attr"}
   kinds   : string over S(ingle) O(ptional) V(ariadic), one char per def
-  constrs : string over A(ny) E(q i32) T(the shared VarConstraint "T" over IntegerType), one char per def
+  constrs : string over A(ny) E(q i32) T(the shared VarConstraint "T" over IntegerType) R(the shared
+            RangeVarConstraint "R" over RangeOf(Any); only on optional/variadic defs), one char per def
   option  : none | same (SameVariadic<X>Size) | attr (AttrSized<X>Segments) | prop (…(as_property=True))
   holder  : a property/attribute "h" constrained by T
 An *instance*:
@@ -30,6 +31,11 @@ Parts
      0..maxlen, every size vector in {-1,0,1,2,3}^n, companion types in {i32,i64}^2.
   C  shared variable holders: operand kind x result kind (both T) x holder kind in {prop_def, opt_prop_def,
      attr_def, opt_attr_def}; lists of length 0..2, holder in {missing, i32, i64, "str"}.
+  R  range variables: one RangeVarConstraint "R" shared by (a) two optional/variadic segments of one
+     construct (operand or result; kinds {O,V}^2 and {O,V} S {O,V}; options same/attr/prop; type lists 0..4,
+     every size vector in {-1,0,1,2,3}^n), (b) an operand segment and a result segment (kinds {O,V}^2, every
+     pair of type lists of length 0..2), (c) two variadic operand segments and a variadic result segment.
+     Reference: all occurrences of R are the SAME tuple of types (the empty tuple is a binding like any other).
   K  corpus: every op of every verified ``// -----`` chunk of tests/filecheck: the accessors of the
      operand/result/region/successor defs partition the corresponding list in order with the right
      multiplicities.
@@ -119,6 +125,7 @@ def reference(spec, inst):
     if bad is not None:
         return False, bad[0], bad[1], segs
     tvals = set()
+    rvals = set()     # every occurrence of the range variable, as a string of type chars ("" = empty tuple)
     for c in ("operand", "result"):
         kinds, constrs, _ = spec[c]
         types = inst[c][0]
@@ -130,6 +137,8 @@ def reference(spec, inst):
                 return False, c, "eq-constraint-violated", segs
             if cc == "T":
                 tvals.update(piece)
+            if cc == "R":
+                rvals.add(piece)
     hk, hv = spec["holder"], inst["holder"]
     if hk is not None:
         if hv == "missing":
@@ -141,6 +150,8 @@ def reference(spec, inst):
             tvals.add("3" if hv == "i32" else "6")
     if len(tvals) > 1:
         return False, "shared-var", "var-inconsistent", segs
+    if len(rvals) > 1:
+        return False, "shared-range-var", "range-var-inconsistent", segs
     return True, None, None, segs
 
 
@@ -171,7 +182,7 @@ class _Env:
         from xdsl.irdl import (AnyAttr, AttrSizedOperandSegments, AttrSizedRegionSegments, AttrSizedResultSegments,
                                AttrSizedSuccessorSegments, IRDLOperation, SameVariadicOperandSize,
                                SameVariadicRegionSize, SameVariadicResultSize, SameVariadicSuccessorSize,
-                               VarConstraint, attr_def, base, irdl_op_definition, operand_def, opt_attr_def,
+                               RangeOf, RangeVarConstraint, VarConstraint, attr_def, base, irdl_op_definition, operand_def, opt_attr_def,
                                opt_operand_def, opt_prop_def, opt_region_def, opt_result_def, opt_successor_def,
                                prop_def, region_def, result_def, successor_def, var_operand_def, var_region_def,
                                var_result_def, var_successor_def)
@@ -183,7 +194,8 @@ class _Env:
         self.Region = Region
         self.i32, self.i64 = i32, i64
         self.T = VarConstraint("T", base(IntegerType))
-        self.constr = {"A": lambda: AnyAttr(), "E": lambda: i32, "T": lambda: self.T}
+        self.R = RangeVarConstraint("R", RangeOf(AnyAttr()))
+        self.constr = {"A": lambda: AnyAttr(), "E": lambda: i32, "T": lambda: self.T, "R": lambda: self.R}
         self.fields = {
             "operand": {"S": operand_def, "O": opt_operand_def, "V": var_operand_def},
             "result": {"S": result_def, "O": opt_result_def, "V": var_result_def},
@@ -538,8 +550,8 @@ def instances(spec, params):
             alts[c] = [[t, s] for t in tl for s in size_specs(len(kinds), option, part)]
         elif kinds and part == "B":      # companion: a single T-constrained def
             alts[c] = [["3", None], ["6", None]]
-        elif kinds and part == "C":
-            alts[c] = [[t, None] for t in type_lists(maxlen, canonical=False)]
+        elif kinds and part in ("C", "R"):
+            alts[c] = [[t, None] for t in type_lists(min(maxlen, 2), canonical=False)]
         else:
             alts[c] = [["", None]]
     if spec["holder"] is None:
@@ -709,6 +721,26 @@ def def_specs(quick: bool):
                         maxlen = b_maxlen3 if (sized and n == 3) else 5
                         cost = (2 ** (maxlen + 1) - 1) * (5 ** n if sized else 1) * comp
                         out.append((spec, {"maxlen": maxlen}, cost))
+    # ---- part R (range variable shared by several optional/variadic segments)
+    ov = ["".join(k) for k in itertools.product("OV", repeat=2)]
+    for c in ("operand", "result"):
+        for k in ov:
+            for kinds, constrs in ((k, "RR"), (k[0] + "S" + k[1], "RAR")):
+                for option in ("same", "attr", "prop"):
+                    spec = empty_spec("R", c)
+                    spec[c] = [kinds, constrs, option]
+                    sized = option != "same"
+                    out.append((spec, {"maxlen": 4}, 31 * (5 ** len(kinds) if sized else 1)))
+    for k in ov:
+        spec = empty_spec("R", "operand")
+        spec["operand"] = [k[0], "R", "none"]
+        spec["result"] = [k[1], "R", "none"]
+        out.append((spec, {"maxlen": 2}, 49))
+    for option in ("same", "attr", "prop"):
+        spec = empty_spec("R", "operand")
+        spec["operand"] = ["VV", "RR", option]
+        spec["result"] = ["V", "R", "none"]
+        out.append((spec, {"maxlen": 4}, 31 * 7 * (25 if option != "same" else 1)))
     # ---- part C
     for ko in KINDS:
         for kr in KINDS:
@@ -743,6 +775,8 @@ def run(ctx):
         "array / ArrayAttr / wrong container over {0,1,2}^n, StringAttr, missing",
         "partB_type_lists": "every list over {i32,i64} of length 0..5 (0..4 for 3 defs with AttrSized)",
         "partB_size_vectors": "{-1,0,1,2,3}^n", **binfo,
+        "partR": "RangeVarConstraint R shared by two optional/variadic segments of one construct (lists 0..4, all size "
+        "vectors), by an operand and a result segment (every pair of lists 0..2), and by two operand + one result segment",
         "partC": "operand kind x result kind x holder kind; lists 0..2; holder in {missing,i32,i64,str}",
         "definitions": len(specs), "corpus_dirs": list(dirs), "corpus_files": len(files),
     }
